@@ -27,23 +27,27 @@ def has_body(n):
     return any(c.get("kind") == "CompoundStmt" for c in n.get("inner", []))
 
 
-def find_defs(objs, last, sig=None):
-    """function definitions named `last` among the top-level nodes (and template instantiations inside them)"""
+def find_defs(objs, last, sig=None, targs=None):
+    """function definitions named `last` among the top-level nodes (and template instantiations inside them);
+    targs: required template arguments of the enclosing class template specialization, e.g. 'int' or 'int,double'"""
     found = []
 
-    def visit(n, depth):
+    def visit(n, depth, ctx):
         k = n.get("kind")
         if k in FUNC_KINDS and n.get("name") == last and has_body(n):
-            if sig is None or sig in n.get("type", {}).get("qualType", ""):
+            if (sig is None or sig in n.get("type", {}).get("qualType", "")) and (targs is None or targs == ctx):
                 found.append(n)
+        if k == "ClassTemplateSpecializationDecl":
+            ctx = ",".join((c.get("type") or {}).get("qualType", c.get("value", "?")) for c in n.get("inner", [])
+                           if isinstance(c, dict) and c.get("kind") == "TemplateArgument")
         if k in ("FunctionTemplateDecl", "ClassTemplateDecl", "CXXRecordDecl", "ClassTemplateSpecializationDecl",
                  "NamespaceDecl", "LinkageSpecDecl") and depth < 4:
             for c in n.get("inner", []):
                 if isinstance(c, dict):
-                    visit(c, depth + 1)
+                    visit(c, depth + 1, ctx)
 
     for o in objs:
-        visit(o, 0)
+        visit(o, 0, None)
     return found
 
 
@@ -169,7 +173,7 @@ def translate(cfg, outdir):
 
     def emit_unit(u, objs, accessor_only=False):
         last = u["name"].split("::")[-1]
-        defs = find_defs(objs, last, u.get("sig"))
+        defs = find_defs(objs, last, u.get("sig"), u.get("targs"))
         if accessor_only:
             defs = [d for d in defs if is_accessor(d)]
             if len(defs) != 1:
